@@ -22,7 +22,7 @@ rel=${pkgdir#$modroot}; rel=${rel#/}
 rundemo() { (cd $wt/$modroot && go test -vet=off -count=1 $ov -run 'TestSeededDemo' ./$rel/ 2>&1 | tail -15); }
 echo "== demo WITH change"; rundemo > $out/demo_with.txt; tail -3 $out/demo_with.txt
 with_rc=$(grep -c "^ok" $out/demo_with.txt)
-git stash -q; echo "== demo WITHOUT change"; rundemo > $out/demo_without.txt; tail -3 $out/demo_without.txt; git stash pop -q
+git diff > $out/.restore.diff; git checkout -- . ; echo "== demo WITHOUT change"; rundemo > $out/demo_without.txt; tail -3 $out/demo_without.txt; git apply $out/.restore.diff; rm -f $out/.restore.diff   # (no git stash: the stash list is shared by all worktrees)
 without_rc=$(grep -c "^ok" $out/demo_without.txt)
 echo "== pinned suite modules: $mods"
 mv $demo /tmp/agentkit/demo-$id.go.aside
